@@ -901,7 +901,12 @@ class vPeriod(TimeBase):
             end = start + duration
         else:
             end = end_or_duration
-            duration = end - start
+            try:
+                duration = end - start
+            except TypeError as e:
+                raise ValueError(
+                    "Start and end of a period must be of the same kind: "
+                    f"{start!r}, {end!r}") from e
         if start > end:
             raise ValueError("Start time is greater than end time")
 
